@@ -75,6 +75,11 @@ def tasks(tier):
         cfg = dict(M=M, alphabet=["ok", "x:T", "r:T"], abort=True, abort_mode=mode, sleeper="call",
                    max_unknown=None, strat_menu=[1, 0], strat_free=True)
         out.append({"family": "abort-context-assigned", "cfg": cfg, "entry": e, "bound": 1})
+    # a faulty on_attempt_end hook must not get between a cancellation and its propagation
+    for idx, e in itertools.product([0, 1, "always"], Q4 + POL):
+        cfg = dict(M=M, alphabet=["ok", "x:T", "kbd", "exit", "cancel", "hyb:cancel"], attempt_hooks="call",
+                   max_unknown=None, faults=[("aend", idx, "RuntimeError")], sleeper="call")
+        out.append({"family": "cancel-with-faulty-end-hook", "cfg": cfg, "entry": e, "bound": 0})
     for e in POL0:
         cfg = dict(M=1, alphabet=ALPHA, abort=True)
         out.append({"family": "abort-noretry", "cfg": cfg, "entry": e, "bound": 1})
